@@ -26,7 +26,9 @@ def work(args):
     signal.signal(signal.SIGALRM, h)
     for i in range(n):
         v = rng.choice(['1.0', '2.0', '3.0', '3.1', '3.1', '3.1'])
-        src = c03.funcall_source(rng, v) if mode == 'fun' else c03.opcall_source(rng, v)
+        src = c03.funcall_source(rng, v) if mode == 'fun' else c03.format_source(rng) if mode == 'fmt' else c03.opcall_source(rng, v)
+        if mode == 'fmt':
+            v = '3.1'
         p = P[v](namespaces={'p': 'http://example.com/ns'})
         signal.alarm(5)
         try:
